@@ -155,11 +155,30 @@ pub fn arm_budgets(n_edges: usize) {
     hooks::set_budget(hooks::Loop::BubblePass, sweep + 1);
     hooks::set_budget(hooks::Loop::ContourStep, sweep + 1);
     hooks::set_budget(hooks::Loop::NextPos, sweep.saturating_mul(sweep.min(1 << 20)));
+    // at most six tree operations per event, each of which may in the worst case walk the whole status (<= 2n segments)
+    hooks::set_budget(hooks::Loop::SplayStep, sweep.saturating_mul(6 * (4 * n_edges as u64 + 16)));
 }
 
 pub fn disarm_budgets() {
-    for l in [hooks::Loop::Sweep, hooks::Loop::BubblePass, hooks::Loop::ContourStep, hooks::Loop::NextPos] {
+    for l in [hooks::Loop::Sweep, hooks::Loop::BubblePass, hooks::Loop::ContourStep, hooks::Loop::NextPos, hooks::Loop::SplayStep] {
         hooks::set_budget(l, u64::MAX);
+    }
+}
+
+/// Run a closure with panics caught and classified (budget excess vs. other panic); budgets are the caller's business.
+pub fn caught<R>(f: impl FnOnce() -> R) -> Result<R, Failure> {
+    match catch_unwind(AssertUnwindSafe(f)) {
+        Ok(v) => Ok(v),
+        Err(e) => {
+            let msg = payload_to_string(e);
+            if let Some(pos) = msg.find("verif-budget-exceeded site=") {
+                let rest = &msg[pos + "verif-budget-exceeded site=".len()..];
+                let site: String = rest.chars().take_while(|c| !c.is_whitespace()).collect();
+                Err(Failure::Budget(site))
+            } else {
+                Err(Failure::Panic(msg))
+            }
+        }
     }
 }
 
